@@ -29,6 +29,11 @@ func main() {
 		harness.CrashChildMain(args[1])
 		return
 	}
+	if len(args) == 3 && args[0] == "freerun" {
+		n, _ := strconv.Atoi(args[2])
+		harness.FreeRunMain(args[1], n)
+		return
+	}
 	if len(args) == 0 {
 		fmt.Println("usage: vcheck run|worker|replay|list ...")
 		os.Exit(2)
